@@ -52,6 +52,18 @@ except Exception:  # pragma: no cover
 SYSTEMS = ["triclinic", "monoclinic", "orthorhombic", "rhombohedral", "tetragonal", "hexagonal"]
 
 
+# maximum misorientation angle per lattice system as DOCUMENTED in the public `geometry.LatticeSystem` docstring (Grimmer 1979, table 1)
+THETA_MAX_DOC = {"triclinic": 180, "monoclinic": 180, "orthorhombic": 120, "rhombohedral": 120, "tetragonal": 90, "hexagonal": 90}
+
+
+def _theta_max(S, sysm):
+    """the private helper of pydrex.stats when it exists under its present name, otherwise the documented table
+    (a renamed or inlined private helper is not a behaviour change)"""
+    f = getattr(S, "_max_misorientation", None)
+    return f(sysm) if f is not None else THETA_MAX_DOC[sysm.name]
+
+
+
 def _lat(G, name):
     return getattr(G.LatticeSystem, name)
 
@@ -150,7 +162,7 @@ def _operators(res):
         a = np.tan(np.deg2rad(90 / M))
         b = 2 * np.rad2deg(np.arctan(np.sqrt(1 + a**2)))
         c = round(2 * np.rad2deg(np.arctan(np.sqrt(1 + 2 * a**2))))
-        th = S._max_misorientation(sysm)
+        th = _theta_max(S, sysm)
         t = outs[6 + i].split()
         got = (int(t[0]), int(t[1]), int(t[2]), int(t[3]), *C.hs2f(t[4:6]))
         res.evaluations += 1
@@ -261,7 +273,7 @@ def _random_density(res, rng, thorough):
     lines, want = [], []
     for i, name in enumerate(SYSTEMS):
         sysm = _lat(G, name)
-        th = S._max_misorientation(sysm)
+        th = _theta_max(S, sysm)
         M, Nn = sysm.value
         special = [0.0, 180 / M, 180 * M / Nn, 90.0, float(th), th - 1.0, 104.0, 104.5, 98.0, 94.0, 109.47, 60.0, 45.0, 30.0]
         cases = []
@@ -431,7 +443,7 @@ def _end_to_end(res, rng, thorough):
     tex_kinds = ["clustered", "girdle"] if not thorough else ["clustered", "girdle", "bimodal", "clustered"]
     for si, name in enumerate(SYSTEMS):
         sysm = _lat(G, name)
-        B = S._max_misorientation(sysm)
+        B = _theta_max(S, sysm)
         n = sizes[name]
         rot_ops = [np.asarray(o, float) for o in G.symmetry_operations(sysm) if np.asarray(o).shape == (4,)]
         cases = []      # (tag, A)
